@@ -339,16 +339,21 @@ func (c *Float) Ident() string {
 			}
 			return fmt.Sprintf("0x%c%04X", hexPrefix, bits)
 		}
-		if c.X.IsInf() || !float.IsExact16(c.X) {
-			f, acc := binary16.NewFromBig(copyOf(c.X))
+		// Round to the nearest half; a value that is not a half (e.g. from
+		// NewFloat(types.Half, 0.1)) is neither truncated nor printed in decimal
+		// notation (which LLVM rejects if it is not exact), and beyond the range
+		// of half it is an infinity.
+		x := roundToHalf(c.X)
+		if x.IsInf() || !float.IsExact16(x) {
+			f, acc := binary16.NewFromBig(copyOf(x))
 			if acc != big.Exact {
 				log.Printf("unable to represent floating-point constant %v of type %v exactly; please submit a bug report to llir/llvm with this error message", c.X, c.Typ)
 			}
 			bits := f.Bits()
 			return fmt.Sprintf("0x%c%04X", hexPrefix, bits)
 		}
-		// c is representable without loss as floating-point literal, this case is
-		// handled for half, float and double below the switch statement.
+		// x is representable without loss as floating-point literal.
+		return decimalText(x)
 	// float (IEEE 754 single precision)
 	case types.FloatKindFloat:
 		// ref: https://groups.google.com/d/msg/llvm-dev/IlqV3TbSk6M/27dAggZOMb0J
@@ -477,10 +482,15 @@ func (c *Float) Ident() string {
 	default:
 		panic(fmt.Errorf("support for floating-point kind %v not yet implemented", c.Typ.Kind))
 	}
+	return decimalText(c.X)
+}
+
+// decimalText returns the decimal floating-point literal of x.
+func decimalText(x *big.Float) string {
 	// Insert decimal point if not present.
 	//    3e4 -> 3.0e4
 	//    42  -> 42.0
-	s := c.X.Text('g', -1)
+	s := x.Text('g', -1)
 	if !strings.ContainsRune(s, '.') {
 		if pos := strings.IndexByte(s, 'e'); pos != -1 {
 			s = s[:pos] + ".0" + s[pos:]
@@ -489,6 +499,41 @@ func (c *Float) Ident() string {
 		}
 	}
 	return s
+}
+
+// roundToHalf returns the IEEE 754 half precision value nearest to x (ties to
+// even): 11 significant bits in the normal range, fewer in the subnormal range
+// (multiples of 2^-24), zero at or below 2^-25 and an infinity at or beyond
+// 65520. x is not modified.
+func roundToHalf(x *big.Float) *big.Float {
+	if x.IsInf() || x.Sign() == 0 {
+		return x
+	}
+	const (
+		precision = 11  // bits in the mantissa, including the implicit lead bit
+		minExp    = -14 // exponent of the smallest normal value
+		maxExp    = 15  // exponent of the largest finite value
+	)
+	exp := x.MantExp(nil) - 1 // x = 1.f * 2^exp
+	prec := precision
+	if exp < minExp {
+		prec -= minExp - exp
+	}
+	y := new(big.Float)
+	switch {
+	case prec >= 1:
+		y.SetPrec(uint(prec)).SetMode(big.ToNearestEven).Set(x)
+	case prec == 0 && new(big.Float).Abs(x).Cmp(new(big.Float).SetMantExp(big.NewFloat(1), minExp-precision)) > 0:
+		// above half of the smallest subnormal value.
+		y.SetMantExp(big.NewFloat(1), minExp-precision+1)
+	}
+	if x.Signbit() != y.Signbit() {
+		y.Neg(y)
+	}
+	if y.Sign() != 0 && y.MantExp(nil)-1 > maxExp {
+		y.SetInf(x.Signbit())
+	}
+	return y
 }
 
 // copyOf returns a copy of x. The conversion functions of mewmew/float set the
